@@ -17,7 +17,7 @@ CONFIG = {
  'C07': dict(level='proof', tags={'C07'}, profiles=[('nav', 48000, 1536000), ('xnav', 46, 57)], assumptions=[A_MODEL, A_SIZE]),
  'C08': dict(level='proof', tags={'C08'}, profiles=[('stream', 60000, 1920000)], assumptions=[A_MODEL, A_SIZE]),
  'C09': dict(level='proof', tags={'C09'}, profiles=[('any', 36000, 1152000), ('writer', 9600, 307200), ('stream', 9600, 307200)], assumptions=[A_MODEL, A_SIZE]),
- 'C10': dict(level='proof', tags={'C10'}, profiles=[('tr', 36000, 1152000), ('rt', 6000, 192000)], assumptions=[A_MODEL, A_SIZE]),
+ 'C10': dict(level='proof', tags={'C10'}, owns_crash=['writer'], profiles=[('tr', 36000, 1152000), ('rt', 6000, 192000)], assumptions=[A_MODEL, A_SIZE]),
  'C11': dict(level='proof', tags={'C11'}, profiles=[('nav', 48000, 1536000), ('xnav', 46, 57)], assumptions=[A_MODEL, A_SIZE]),
  'C12': dict(level='proof', tags={'C12'}, profiles=[('reuse', 36000, 1152000), ('writer', 6000, 192000)], assumptions=[A_MODEL, A_SIZE]),
  'C13': dict(level='proof', tags={'C13'}, owns_crash=['print'], profiles=[('print', 14400, 24000), ('any', 9600, 307200)], assumptions=[A_MODEL, A_SIZE, A_LIBC]),
